@@ -20,12 +20,14 @@ function ft() return boolean is begin return true; end;
 function ff() return boolean is begin return false; end;
 function fn() return boolean is begin return bool(); end;
 function fu() return undefined is begin return null; end;
+function fnn() return boolean is begin return null; end;
+function foff(i) return boolean is begin if i > 0 then return true; end if; end;
 """
 
 ATOMS = {
-    "T": ["true", "bool(1)", "vt", "ft()", "tt.at(0)", "rr@1", "(one == one)", "(not vf)", "on"],
+    "T": ["true", "bool(1)", "vt", "ft()", "tt.at(0)", "rr@1", "(one == one)", "(not vf)", "on", "foff(1)"],
     "F": ["false", "bool(0)", "vf", "ff()", "tf.at(0)", "rr@2", "(one == two)", "(not vt)", "off"],
-    "N": ["null", "bool()", "vn", "vu", "fn()", "fu()", "tn.at(0)", "rr@3", "(one == ni)", "(not vn)", "(null == null)"],
+    "N": ["null", "bool()", "vn", "vu", "fn()", "fu()", "tn.at(0)", "rr@3", "(one == ni)", "(not vn)", "(null == null)", "fnn()", "foff(0)"],
 }
 SMALL = {"T": ["true", "vt"], "F": ["false", "vf"], "N": ["null", "vn", "vu"]}
 
@@ -59,9 +61,9 @@ def knot(a):
 
 PROBE = ('print null; print isnull(null) typeof(null); print (null or false) (null and true) (not null); print vn vu; '
          'print isnull(vn) isnull(vu) typeof(vn) typeof(vu); print tn.at(0) rr@3; print vt vf tt.at(0) tf.at(0) rr@1 rr@2; '
-         'print ft() ff() fn() fu();')
+         'print ft() ff() fn() fu() fnn() foff(0) foff(1);')
 PROBE_EXPECT = ("null\nTRUEundefined\nnullnullnull\nnullnull\nTRUETRUEbooleanundefined\nnullnull\n"
-                "TRUEFALSETRUEFALSETRUEFALSE\nTRUEFALSEnullnull\n")
+                "TRUEFALSETRUEFALSETRUEFALSE\nTRUEFALSEnullnullnullnullTRUE\n")
 
 # relational: (type family, non-null atoms, null atoms)
 REL = {
@@ -138,6 +140,20 @@ def gen_factory(tier):
             yield Case("c%d" % n, [op_ctx(), op_run(PRELUDE), op_run(p), op_out(), op_run(PROBE), op_out()],
                        {"kind": "cond", "e": c, "want": w, "stmt": "while", "untyped": c in UNIV_NULL})
             n += 1
+        # 3b. a boolean variable (static type boolean) that receives the value while the statement runs: the condition
+        #     node was compiled for a boolean and meets whatever the atom yields, including the untyped null
+        for ka, la in ATOMS.items():
+            for a in la:
+                p = ('go = true; n = 0; while go loop n = n + 1; print "T"; if n == 1 then go = %s; end if; if n > 3 then break; end if; '
+                     'end loop; print "E";' % a)
+                yield Case("c%d" % n, [op_ctx(), op_run(PRELUDE), op_run(p), op_out(), op_run(PROBE), op_out()],
+                           {"kind": "cond", "e": a, "want": ka, "stmt": "while-reset", "untyped": False})
+                n += 1
+                p = ('go = true; for k in 1 to 2 loop if go then print "T"; else print "F"; end if; go = %s; end loop; '
+                     'if not go then print "t"; elsif go then print "T"; else print "F"; end if; print "E";' % a)
+                yield Case("c%d" % n, [op_ctx(), op_run(PRELUDE), op_run(p), op_out(), op_run(PROBE), op_out()],
+                           {"kind": "cond", "e": a, "want": ka, "stmt": "if-reset", "untyped": False})
+                n += 1
         # 4. relational operators with a null side
         for tx, (nnx, nlx) in REL.items():
             for ty, (nny, nly) in REL.items():
@@ -195,7 +211,12 @@ def check(case, res):
                 if out != want:
                     vs.append(Violation("pair:interference", "%s printed %r, expected %r" % (m["e"], out, want), case))
             else:
-                want = "T\nT\nE\n" if m["want"] == "T" else ("F\nF\nE\n" if m["stmt"] == "if" else "E\n")
+                if m["stmt"] == "while-reset":
+                    want = "T\nT\nT\nT\nE\n" if m["want"] == "T" else "T\nE\n"
+                elif m["stmt"] == "if-reset":
+                    want = {"T": "T\nT\nT\nE\n", "F": "T\nF\nt\nE\n", "N": "T\nF\nF\nE\n"}[m["want"]]
+                else:
+                    want = "T\nT\nE\n" if m["want"] == "T" else ("F\nF\nE\n" if m["stmt"] == "if" else "E\n")
                 if out != want:
                     vs.append(Violation("cond:%s" % m["want"], "condition %s gave %r, expected %r" % (m["e"], out, want), case))
         if probe_run.get("r") != "ok" or probe_out != PROBE_EXPECT:
